@@ -5,6 +5,9 @@
     [1/asybound^2, asybound], low < alfa <= x <= beta < upp, xmin <= alfa, beta <= xmax, and the admissible
     interval respects the move limit; bounds per signal / per variable expand to the per-variable vector and
     the design vector splits back to the signals (SplitRoundTrip). A variant without the xmin clause is refuted.
+[R] every set-up case of Optim.tla (state before the call) is loaded into a real MMA object and MMA.mmasub is called
+    (both MMA versions): updated offsets, asymptotes and admissible interval must equal the specification's, and the
+    approximation handed to the sub-problem solver must reproduce value and gradient at x.
 [T] runs of MMA on generated convex problems (several signals incl. scalars; scalar / per-signal /
     per-variable bounds and move limits; both MMA versions; several asymptote parameters; 1-2 constraints)
     are recorded at every sub-problem (patched subsolv, wrapped mmasub, fn_callback) in fixed point and
